@@ -1176,7 +1176,29 @@ func isAtomicLoadOfPtr(v ssa.Value, typ, field string) bool {
 // position is stale removes another, still parked stream from the list, which then never gets its
 // time-out. Necessary condition checked: blocked[i].blockIndex == i is re-established by every writer.
 func ruleBlockedIndex(c *Ctx, r *Rule) {
-	isBlockedLoad := func(v ssa.Value) bool { return isLoadOfField(stripConv(v), pipelinePkg, "streamer", "blocked") }
+	var isBlockedVal func(v ssa.Value, d int) bool
+	isBlockedVal = func(v ssa.Value, d int) bool {
+		v = stripConv(v)
+		if isLoadOfField(v, pipelinePkg, "streamer", "blocked") {
+			return true
+		}
+		// the list handed to a helper as an argument
+		if par, ok := v.(*ssa.Parameter); ok && d < 2 {
+			pi := paramIndex(par.Parent(), par)
+			sites := c.sitesOf(par.Parent())
+			if pi < 0 || len(sites) == 0 {
+				return false
+			}
+			for _, cs := range sites {
+				if pi >= len(cs.Common().Args) || !isBlockedVal(cs.Common().Args[pi], d+1) {
+					return false
+				}
+			}
+			return true
+		}
+		return false
+	}
+	isBlockedLoad := func(v ssa.Value) bool { return isBlockedVal(v, 0) }
 	elemOfBlocked := func(addr ssa.Value) (*ssa.IndexAddr, bool) {
 		ia, ok := addr.(*ssa.IndexAddr)
 		if !ok || !isBlockedLoad(ia.X) {
